@@ -264,6 +264,8 @@ def shard(plan_ref, seed, examples):
             if thumb and 'pc_off' not in kw:
                 kw['pc_off'] = rng.choice((0, 2))        # Thumb instructions at both 0 and 2 mod 4 (Align(PC,4) matters)
             hooked = plan.hooked[rng.randrange(len(plan.hooked))]
+            if 'code_base' not in kw and kw.get('mmu', False) is False and kw.get('mpu') is False and rng.random() < 0.05:
+                kw.update(code_base=0xFFFFFF00, pc_top=True)          # the instruction in the last 2..8 bytes below 2^32
             case = gen.step_case(rng, cfgname, thumb, code, steps=plan.steps, hooked=hooked, **kw)
             if plan.tweak_case:
                 plan.tweak_case(rng, row, w, case)
